@@ -64,17 +64,28 @@ def check_field_width(rep, F):
     notation, prec, width = None, None, None
     prev_sep = True
     n_fields = 0
+
+    def int_of(txt):
+        """a literal, or a namespace-scope constant initialised with one (static const int real_width = 20)"""
+        if re.match(r"^\d+$", txt):
+            return int(txt)
+        for q_, g_ in getattr(F, "globals", {}).items():
+            if (q_ == txt or q_.endswith("::" + txt)) and g_.get("const") and g_.get("init") is not None:
+                v_ = lit_value(g_["init"])
+                if v_ is not None and v_.denominator == 1:
+                    return int(v_)
+        return None
     bad = None
     for v, e in stream_items(fo):
         sv = str(v)
         ty = (e["node"].get("args") or [{}, {}])[1].get("type", "") if e["node"].get("args") else ""
         m = re.match(r"^setprecision\((.*)\)$", sv)
         if m:
-            prec = int(m.group(1)) if re.match(r"^\d+$", m.group(1)) else None
+            prec = int_of(m.group(1))
             continue
         m = re.match(r"^setw\((.*)\)$", sv)
         if m:
-            width = int(m.group(1)) if re.match(r"^\d+$", m.group(1)) else None
+            width = int_of(m.group(1))
             continue
         if sv in ("std::fixed",):
             notation = "fixed"
